@@ -111,8 +111,11 @@ def replay_main(path):
         print("replay: harness not found")
         return 2
     ctx = ConcCtx(lw, values=rp["values"], choices=rp["choices"], tol=rp.get("tol", 1e-6))
+    from symx.harness import ReplayEnd
     try:
         fn(ctx, **case)
+    except ReplayEnd:
+        print("replay: end of the recorded path")
     except Exception as e:
         print(f"replay: exception {type(e).__name__}: {e}")
         traceback.print_exc()
